@@ -1,6 +1,7 @@
 """C13 generator: bases x segment texts x the spellings the path algebra relates."""
 import random
 
+from vlib.gens import alias
 from vlib.gens.progs import TOKENS, text
 
 T = lambda s: [ord(c) for c in s]  # noqa: E731
@@ -20,12 +21,16 @@ def gen(params):
         fam = rnd.choice(["div", "join2", "with_name", "with_suffix"])
         if fam == "div":
             s = text(rnd, 3, pool=SEG_POOL) if rnd.random() < 0.8 else text(rnd, 3)
+            if rnd.random() < 0.12:      # a segment made only of ASCII-aliasing code points (Unicode digits, low-byte aliases, ...)
+                s = alias.words(rnd)
             alts = [[{"op": "truediv", "v": T(s)}], [{"op": "joinpath", "vs": [T(s)]}], [{"op": "truediv", "v": T(s)}, {"op": "parent"}]]
             args = {"s": T(s)}
         elif fam == "join2":
             a, b = text(rnd, 2, pool=SEG_POOL), text(rnd, 2, pool=SEG_POOL)
             if rnd.random() < 0.2:
                 a += "/"
+            if rnd.random() < 0.1:
+                a, b = rnd.choice([(alias.words(rnd), b), (a, alias.words(rnd))])
             if rnd.random() < 0.15:      # the same text twice (the driver then passes the same OBJECT twice)
                 b = a
             alts = [[{"op": "joinpath", "vs": [T(a), T(b)]}], [{"op": "joinpath", "vs": [T(a)]}, {"op": "joinpath", "vs": [T(b)]}],
